@@ -239,7 +239,9 @@ func (rt *Transfer) recvGenerator(idx int, f *File) error {
 		if err := rt.createDevice(f, st); err != nil {
 			return err
 		}
-		return nil
+		// mknod(2) and friends apply the umask: set the requested
+		// permissions (and times, owner) like for all other entries.
+		return rt.setPerms(f, fs.FileMode(f.Mode))
 	}
 
 	if rt.Opts.PreserveHardlinks {
